@@ -1,5 +1,5 @@
 (* C05 — proofs: a clean full check implies that everything restore fetches is readable and
-   hashes to the id it is fetched for (root trees: readable, hash not compared). *)
+   hashes to the id it is fetched for (root trees included, since their packs are in the read set). *)
 From Verif.Base Require Import Tactics.
 From Verif.C05 Require Import Model.
 Local Open Scope N_scope.
@@ -109,7 +109,7 @@ Section Proofs.
     destruct (negb (sp_size sp =? computed_size (ip_blobs p))); [discriminate|].
     destruct (negb (sp_hash sp =? ip_id p)); [discriminate|].
     destruct (negb (sp_trailer sp =? hdr_size (ip_blobs p))); [discriminate|].
-    destruct (read_seg B sp (sp_size sp - 4 - hdr_size (ip_blobs p)) (hdr_size (ip_blobs p))) as [pl|]; [|discriminate].
+    destruct (read_seg B sp (sp_size sp - Extracted.x_length_len - hdr_size (ip_blobs p)) (hdr_size (ip_blobs p))) as [pl|]; [|discriminate].
     destruct pl as [? ?|hs]; [discriminate|].
     destruct (list_eqb iblob_eqb hs (sort_blobs (ip_blobs p))); [|discriminate].
     destruct (blob_loop_ok sp (ptype p) (sort_blobs (ip_blobs p)) 0 Hi Hc b) as [pl [d [H1 [H2 H3]]]].
